@@ -11,6 +11,7 @@ use arrow::datatypes::{DataType, Field, Schema};
 use arrow::record_batch::RecordBatch;
 use parquet::arrow::ArrowWriter;
 use parquet::file::properties::WriterProperties;
+use query_engine::execution::ExecutionContext;
 use query_engine::storage::ipc_cache;
 use query_engine::verif_hooks as vh;
 use serde_json::{json, Value};
@@ -121,44 +122,43 @@ enum Obs {
 }
 
 fn actor(role: Role, id: usize, sched: Arc<Sched>, pq: PathBuf, n_rg: usize) -> Obs {
-    MY_ID.with(|c| c.set(Some(id)));
-    match role {
-        Role::Builder => {
-            vh::set_virtual_pid(Some(1000 + id as u32));
-            vh::set_thread_ipc_mode(Some(1));
-        }
-        Role::Reader => {
-            vh::set_virtual_pid(Some(1000 + id as u32));
-            vh::set_thread_ipc_mode(Some(2));
-        }
-        Role::BuilderShared => {
-            vh::set_virtual_pid(None);
-            vh::set_thread_ipc_mode(Some(1));
-        }
-    }
-    let obs = match ipc_cache::ensure_sidecar(&pq) {
-        None => Obs::Fallback,
-        Some(dir) => {
-            let mut all = Vec::new();
-            let mut err = None;
-            for rg in 0..n_rg {
-                match ipc_cache::read_row_group(&dir, rg, None, None) {
-                    Ok(b) => all.extend(rows_of(&b)),
-                    Err(e) => {
-                        err = Some(format!("row group {rg}: {e}"));
-                        break;
-                    }
+    let _ = n_rg;
+    // The engine reads the row groups of a scan on the rayon pool it runs in. Each virtual process gets a private one-worker pool whose
+    // worker carries the process identity (hook points, virtual pid, QE_IPC_CACHE mode), and the whole scan runs on that worker.
+    let pool = rayon::ThreadPoolBuilder::new()
+        .num_threads(1)
+        .start_handler(move |_| {
+            MY_ID.with(|c| c.set(Some(id)));
+            match role {
+                Role::Builder => {
+                    vh::set_virtual_pid(Some(1000 + id as u32));
+                    vh::set_thread_ipc_mode(Some(1));
+                }
+                Role::Reader => {
+                    vh::set_virtual_pid(Some(1000 + id as u32));
+                    vh::set_thread_ipc_mode(Some(2));
+                }
+                Role::BuilderShared => {
+                    vh::set_virtual_pid(None);
+                    vh::set_thread_ipc_mode(Some(1));
                 }
             }
-            match err {
-                Some(e) => Obs::ReadError(e),
-                None => Obs::Rows(all),
-            }
+        })
+        .build()
+        .expect("private pool");
+    // through the engine's own caller (ParquetTable::scan -> read_file -> ensure_sidecar / read_row_group with its Parquet fallback)
+    let obs = pool.install(|| {
+        let mut ctx = ExecutionContext::new();
+        match ctx.register_parquet("t", &pq) {
+            Err(e) => Obs::ReadError(format!("register: {e}")),
+            Ok(_) => match ctx.table_provider("t").map(|p| p.scan(None)) {
+                Some(Ok(b)) => Obs::Rows(rows_of(&b)),
+                Some(Err(e)) => Obs::ReadError(e.to_string()),
+                None => Obs::ReadError("no provider".into()),
+            },
         }
-    };
-    vh::set_virtual_pid(None);
-    vh::set_thread_ipc_mode(None);
-    MY_ID.with(|c| c.set(None));
+    });
+    drop(pool);
     sched.finish(id);
     obs
 }
@@ -380,7 +380,6 @@ pub fn run(quick: bool, _seed: u64, work: &str) -> Out {
         configs.push(("shared builder + foreign builder + reader", vec![BuilderShared, Builder, Reader], Start::Cold, 2));
     }
     let cap = if quick { 1500 } else { 60000 };
-    let known_id = "reader_loses_sidecar_to_second_builder";
     for (ci, (name, roles, start, bound)) in configs.iter().enumerate() {
         let dir = base.join(format!("c{ci}"));
         let mut stack: Vec<Vec<usize>> = vec![vec![]];
@@ -417,18 +416,16 @@ pub fn run(quick: bool, _seed: u64, work: &str) -> Out {
                         let mut w = want.clone();
                         w.sort();
                         if a == w {
-                            key.push_str(&format!("P{i}=sidecar-rows "));
+                            key.push_str(&format!("P{i}=table-rows "));
                         } else {
                             key.push_str(&format!("P{i}=WRONG "));
-                            bad = Some((format!("virtual process {i} ({:?}) read other rows through the sidecar: {r:?}", roles[i]), false));
+                            bad = Some((format!("virtual process {i} ({:?}) read other rows: {r:?}", roles[i]), false));
                         }
                     }
                     Obs::ReadError(e) => {
-                        key.push_str(&format!("P{i}=read-error "));
-                        // the listed finding: the directory this process was handed was removed by ANOTHER builder's publication step
-                        let removed_by_other = ex.labels.iter().any(|l| !l.starts_with(&format!("P{i}:")) && l.ends_with("build:remove-final")) && e.contains("No such file");
+                        key.push_str(&format!("P{i}=error "));
                         if bad.is_none() {
-                            bad = Some((format!("virtual process {i} ({:?}) was handed a sidecar and then failed to read it: {e}", roles[i]), removed_by_other));
+                            bad = Some((format!("virtual process {i} ({:?}): the scan failed: {e}", roles[i]), false));
                         }
                     }
                 }
@@ -459,8 +456,7 @@ pub fn run(quick: bool, _seed: u64, work: &str) -> Out {
                 None => {
                     o.distinct.insert(fnv(format!("{name}{:?}", ex.choices).as_bytes()));
                 }
-                Some((why, true)) => o.known(known_id, mk(why)),
-                Some((why, false)) => o.violation(mk(why)),
+                Some((why, _)) => o.violation(mk(why)),
             }
             for i in prefix.len()..ex.choices.len() {
                 let basep = preempt_before(&ex, i);
